@@ -55,6 +55,9 @@ static void put_runs(const char *key, const uint16_t *v, uint32_t n) {
     fputc(']', tr_f);
 }
 
+/* the serialisation produced by the last Codec step: container type before it, first bytes */
+static uint8_t g_ser_head[40];
+static int g_ser_type = -1;
 static void observe(const char *op, long a, long b, const char *k, int f,
                     long ret, varintBitmap *vb, const varintBitmap *operand) {
     ev_begin("Bm");
@@ -73,6 +76,8 @@ static void observe(const char *op, long a, long b, const char *k, int f,
         return;
     }
     ev_int("dead", 0);
+    ev_bytes("ser", g_ser_head, !strcmp(op, "Codec") && ret > 0 ? (size_t)(ret < 40 ? ret : 40) : 0);
+    ev_int("ser_type", g_ser_type);
     ev_int("type", vb->type);
     ev_int("card", varintBitmapCardinality(vb));
     ev_int("empty", varintBitmapIsEmpty(vb));
@@ -247,8 +252,10 @@ static varintBitmap *apply(varintBitmap *vb, const char *op, long a, long b,
     } else if (!strcmp(op, "Codec")) {
         size_t n = 0;
         varintBitmap *c = NULL;
+        g_ser_type = (int)vb->type;
         f = GUARDED(n = varintBitmapEncode(vb, encbuf));
         if (!f) {
+            memcpy(g_ser_head, encbuf, n < 40 ? n : 40);
             gbuf src = gb_alloc(n);
             memcpy(src.p, encbuf, n);
             f = GUARDED(c = varintBitmapDecode(src.p, n));
